@@ -134,10 +134,9 @@ class AbstractWalkModelDiGraph(ABC):
             self._check_valid_subset_constraints()
 
         self.subset_constraints_coverage = subset_constraints_coverage
-        if len(subset_constraints) > 0:
-            if self.subset_constraints_coverage <= 0 or self.subset_constraints_coverage > 1:
-                utils.logger.error(f"{__name__}: subset_constraints_coverage must be in the range (0, 1]")
-                raise ValueError("subset_constraints_coverage must be in the range (0, 1]")
+        if self.subset_constraints_coverage <= 0 or self.subset_constraints_coverage > 1:
+            utils.logger.error(f"{__name__}: subset_constraints_coverage must be in the range (0, 1]")
+            raise ValueError("subset_constraints_coverage must be in the range (0, 1]")
 
         self.solve_statistics = solve_statistics
         self.edge_vars = {}
